@@ -8,6 +8,7 @@ A *scenario* is a list of script steps
     ["deliver", dir, chunks]    move bytes of `dir` up to the end of the next completely serialized tracked
                                 call (or all bytes if there is none), cut into pieces by `chunks`
     ["gift", dir, cid, ok]      resolve (ok) / fail the pending third-party reference of call cid (if pending)
+    ["finish", dir, j, ok]      a method entered earlier (kind "slow": it returned a Deferred) completes / errbacks late
     ["turn"]                    one turn of foolscap's eventual-send queue
 
 While the script runs, instrumentation (instance-level wrappers; nothing in /repo is touched) logs the *model ops*
@@ -33,9 +34,9 @@ class RIOrderC04(RemoteInterface):
         return Any()
 
 
-KINDS = ("plain", "gift", "early", "abort", "late", "local")
+KINDS = ("plain", "slow", "gift", "early", "abort", "late", "local")
 # model fate codes
-FATE = {"plain": 0, "gift": 1, "early": 2, "abort": 2, "late": 3}
+FATE = {"plain": 0, "slow": 0, "gift": 1, "early": 2, "abort": 2, "late": 3}
 
 
 class QTransport:
@@ -115,6 +116,11 @@ class Target(Referenceable):
 
     def remote_m(self, cid, a=None, x=None, g=None):
         self.world.entered_call(self.d, cid)
+        if g == "slow":
+            # the method has been entered; its result arrives (or fails) whenever the harness says so
+            dd = defer.Deferred()
+            self.world.slow[self.d][cid] = dd
+            return dd
         return cid
 
 
@@ -153,6 +159,7 @@ class World:
         self.results = [{}, {}]
         self.errors = []
         self.reenter = {}
+        self.slow = [{}, {}]        # direction -> cid -> Deferred returned by the entered method
         self.keep = []
         for d in (0, 1):
             self._instrument(d)
@@ -233,6 +240,8 @@ class World:
             rr = referenceable.RemoteReference(tracker)
             self.keep.append(rr)
             kw["g"] = rr
+        elif kind == "slow":
+            kw["g"] = "slow"
         elif kind == "early":
             kw["x"] = "not-an-int"
         elif kind == "abort":
@@ -317,6 +326,18 @@ class World:
         else:
             dd.errback(failure.Failure(RuntimeError("gift %d cannot be resolved" % cid)))
 
+    def finish(self, d, j, ok):
+        """the j-th (mod n) method that was entered earlier and returned a Deferred now completes / fails.  Not a model
+        op: on the receiver a result or a late failure only produces an answer, it must not touch the call queue"""
+        pend = sorted(c for c, dd in self.slow[d].items() if not dd.called)
+        if not pend:
+            return
+        cid = pend[j % len(pend)]
+        if ok:
+            self.slow[d][cid].callback(cid)
+        else:
+            self.slow[d][cid].errback(failure.Failure(RuntimeError("method of call %d failed late" % cid)))
+
     def turn(self):
         for d in (0, 1):
             self.cur_ops[d].append(("T",))
@@ -361,6 +382,9 @@ class World:
                     moved = True
                 if self.pending_gifts(d):
                     self.gift(d, 0, True)
+                    moved = True
+                if any(not dd.called for dd in self.slow[d].values()):
+                    self.finish(d, 0, True)
                     moved = True
             if turn_pending():
                 self.turn()
@@ -422,6 +446,8 @@ def run_scenario(script, final_quiesce=True):
                 w.gift(st[1], st[2], st[3])
             elif st[0] == "turn":
                 w.turn()
+            elif st[0] == "finish":
+                w.finish(st[1], st[2], st[3])
             else:
                 raise ValueError(st)
             obs.append(w.end_step())
